@@ -295,6 +295,32 @@ theorem c06_not_replayed (sp : Spec) (k : Nat) (h1 : sp.periodicAt k = true)
   simp only [Bool.and_eq_true, decide_eq_true_eq] at h2'
   exact h2'.2
 
+/-- Under the timeline hypothesis the saturating addition in the due time never saturates: a
+periodic activation's due time is exactly `last periodic activation + INTERVAL`, and no due time
+(periodic or event) lies in the future of the cycle's clock. -/
+theorem c06_due_time_exact (sp : Spec) (h : sp.TimesOk) (k : Nat) :
+    (sp.periodicAt k = true → sat64 (sp.lastP k + sp.iv) = sp.lastP k + sp.iv ∧
+        sp.lastP k + sp.iv ≤ sp.t k) ∧
+    sp.dueTime k ≤ sp.t k := by
+  have hr := sp.lastP_range h k
+  have ht := h.2 k
+  have key : sp.periodicAt k = true → sat64 (sp.lastP k + sp.iv) = sp.lastP k + sp.iv ∧
+      sp.lastP k + sp.iv ≤ sp.t k := by
+    intro hp
+    have hp' : (decide (sp.iv > 0) && !sp.s k && decide (sp.t k - sp.lastP k ≥ sp.iv)) = true := hp
+    simp only [Bool.and_eq_true, decide_eq_true_eq] at hp'
+    obtain ⟨⟨hiv, _⟩, hge⟩ := hp'
+    refine ⟨sat64_id (by unfold i64Min; omega) (by omega), by omega⟩
+  refine ⟨key, ?_⟩
+  unfold Spec.dueTime
+  by_cases hp : sp.periodicAt k = true
+  · obtain ⟨h1, h2⟩ := key hp
+    simp only [hp, if_true, h1]
+    split
+    · split <;> omega
+    · omega
+  · simp [hp]
+
 /-- Non-vacuity of `c06_order_unique` / `c06_order_reading`: equal priorities are ordered by due
 time, equal due times by declaration index, whatever the order of the ready list. -/
 example :
